@@ -63,9 +63,26 @@ def status_of(prog: Program, f: FuncInfo, st: ast.AST) -> Optional[int]:
         v = next((k.value for k in e.keywords if k.arg == kw), None)
         if v is None and pos is not None and len(e.args) > pos:
             v = e.args[pos]
-        if isinstance(v, ast.Constant) and isinstance(v.value, int):
-            return v.value
+        code = _int_const(v)
+        if code is not None:
+            return code
         return 200 if v is None and isinstance(st, ast.Return) else None
+    return None
+
+
+def _int_const(v: Optional[ast.expr]) -> Optional[int]:
+    """an integer literal, or a member of http.HTTPStatus (with or without `.value`) — the standard library's names for the codes"""
+    if isinstance(v, ast.Constant) and isinstance(v.value, int) and not isinstance(v.value, bool):
+        return v.value
+    d = dotted(v) if v is not None else None
+    if d:
+        parts = d.split('.')
+        if parts[-1] == 'value':
+            parts = parts[:-1]
+        if len(parts) >= 2 and parts[-2] == 'HTTPStatus':
+            import http
+            m = getattr(http.HTTPStatus, parts[-1], None)
+            return int(m) if m is not None else None
     return None
 
 
@@ -156,9 +173,15 @@ def integration_facts(prog: Program, fw: str, ci: ClassInfo) -> Tuple[Dict[str, 
         acc = None
         if isinstance(cond, ast.Compare) and isinstance(cond.ops[0], (ast.NotIn, ast.In)) and len(cond.ops) == 1:
             acc = request_accessor(cond.left, fw)
-            known, val = const_value(prog, f, cond.comparators[0])
-            table_ok = known and isinstance(val, tuple) and 'application/json' in val and \
-                norm(cond.comparators[0]).endswith('REQUEST_CONTENT_TYPES')
+            from ..util import canon_dotted as _cd
+            tbl_e = cond.comparators[0]
+            tbl_txt = _cd(f, tbl_e) or norm(tbl_e)     # a local alias of the package (`common = pjrpc.common`) is looked through
+            try:
+                tbl_e2 = ast.parse(tbl_txt, mode='eval').body
+            except SyntaxError:
+                tbl_e2 = tbl_e
+            known, val = const_value(prog, f, tbl_e2)
+            table_ok = known and isinstance(val, tuple) and 'application/json' in val and tbl_txt.endswith('REQUEST_CONTENT_TYPES')
             refuse_when_not_in = (e.label == 'T') == isinstance(cond.ops[0], ast.NotIn)
             k = ACCESSORS.get((fw, acc or ''), 'unknown-accessor')
             if k == 'unknown-accessor' and not isinstance(cond.left, ast.Attribute):
@@ -322,11 +345,82 @@ def integration_facts(prog: Program, fw: str, ci: ClassInfo) -> Tuple[Dict[str, 
                          f'{fw}: when the dispatcher returns nothing the reply must be an empty 200'))
     rets = [n for n in cfg.stmt_nodes() if isinstance(n.ast, ast.Return) and n.ast.value is not None]
     relay = {}
+
+    def none_state(n_: Node) -> Optional[bool]:
+        """True: reached only when the verdict is None; False: only when it is not; None: on both kinds of path"""
+        t_ = any(isn and (n_.id in cfg.reachable(e.dst) or n_ is e.dst) for e, isn in none_edges)
+        f_ = any((not isn) and (n_.id in cfg.reachable(e.dst) or n_ is e.dst) for e, isn in none_edges)
+        return True if t_ and not f_ else False if f_ and not t_ else None
+
+    def spread_variants(n_: Node, call: ast.Call) -> Optional[List[Tuple[ast.Call, bool]]]:
+        """`R(*A, **K)` with A / K locals that start empty and are filled (`A += (x,)`, `A.append(x)`, `K.update(k=v)`, `K[k] = v`)
+        under the verdict test: the call as it is made when the verdict is None and when it is not."""
+        names = [a.value.id for a in call.args if isinstance(a, ast.Starred) and isinstance(a.value, ast.Name)] + \
+                [k.value.id for k in call.keywords if k.arg is None and isinstance(k.value, ast.Name)]
+        n_spreads = sum(1 for a in call.args if isinstance(a, ast.Starred)) + sum(1 for k in call.keywords if k.arg is None)
+        if not names or len(names) != n_spreads:
+            return None
+        out_ = []
+        for want_none in (True, False):
+            pos_: List[ast.expr] = [a for a in call.args if not isinstance(a, ast.Starred)]
+            kws_: List[ast.keyword] = [k for k in call.keywords if k.arg is not None]
+            for nm in names:
+                inits = 0
+                for m_ in cfg.stmt_nodes():
+                    a_ = m_.ast
+                    if m_.kind != 'stmt' or n_.id not in cfg.reachable(m_):
+                        continue
+                    tg_ = a_.targets[0] if isinstance(a_, ast.Assign) and len(a_.targets) == 1 else a_.target if isinstance(a_, (ast.AnnAssign, ast.AugAssign)) else None
+                    st_ = none_state(m_)
+                    live = st_ is None or st_ == want_none
+                    if isinstance(tg_, ast.Name) and tg_.id == nm and not isinstance(a_, ast.AugAssign):
+                        val_ = a_.value
+                        empty_ = isinstance(val_, (ast.Tuple, ast.List, ast.Dict)) and not (getattr(val_, 'elts', None) or getattr(val_, 'keys', None)) or \
+                            isinstance(val_, ast.Call) and dotted(val_.func) in ('dict', 'list', 'tuple') and not val_.args and not val_.keywords
+                        if not empty_ or st_ is not None:
+                            return None
+                        inits += 1
+                    elif isinstance(a_, ast.AugAssign) and isinstance(tg_, ast.Name) and tg_.id == nm and isinstance(a_.op, ast.Add) and \
+                            isinstance(a_.value, (ast.Tuple, ast.List)):
+                        if live:
+                            pos_ += list(a_.value.elts)
+                    elif isinstance(a_, ast.Assign) and isinstance(tg_, ast.Subscript) and dotted(tg_.value) == nm and isinstance(tg_.slice, ast.Constant):
+                        if live:
+                            kws_.append(ast.keyword(arg=str(tg_.slice.value), value=a_.value))
+                    elif isinstance(a_, ast.Expr) and isinstance(a_.value, ast.Call) and isinstance(a_.value.func, ast.Attribute) and \
+                            dotted(a_.value.func.value) == nm:
+                        c2 = a_.value
+                        if c2.func.attr == 'update' and not c2.args and all(k.arg for k in c2.keywords):
+                            if live:
+                                kws_ += list(c2.keywords)
+                        elif c2.func.attr == 'update' and len(c2.args) == 1 and isinstance(c2.args[0], ast.Dict) and not c2.keywords and \
+                                all(isinstance(k, ast.Constant) for k in c2.args[0].keys):
+                            if live:
+                                kws_ += [ast.keyword(arg=str(k.value), value=v_) for k, v_ in zip(c2.args[0].keys, c2.args[0].values)]
+                        elif c2.func.attr == 'append' and len(c2.args) == 1:
+                            if live:
+                                pos_.append(c2.args[0])
+                        else:
+                            return None
+                    elif any(isinstance(y, ast.Name) and y.id == nm and isinstance(y.ctx, ast.Store) for y in ast.walk(a_)):
+                        return None
+                if inits != 1:
+                    return None
+            out_.append((ast.copy_location(ast.Call(func=call.func, args=pos_, keywords=kws_), call), want_none))
+        return out_
+    work: List[Tuple[Node, ast.expr, Optional[bool]]] = []
     for n in rets:
-        v = n.ast.value
-        on_none = any(is_none and (n.id in cfg.reachable(e.dst) or n is e.dst) and
-                      not any((n.id in cfg.reachable(e2.dst) or n is e2.dst) for e2, isn2 in none_edges if not isn2)
-                      for e, is_none in none_edges)
+        v0 = n.ast.value
+        sv = spread_variants(n, v0) if isinstance(v0, ast.Call) and none_state(n) is None else None
+        if sv:
+            work += [(n, c_, wn_) for c_, wn_ in sv]
+        else:
+            work.append((n, v0, None))
+    for n, v, forced in work:
+        on_none = forced if forced is not None else any(
+            is_none and (n.id in cfg.reachable(e.dst) or n is e.dst) and
+            not any((n.id in cfg.reachable(e2.dst) or n is e2.dst) for e2, isn2 in none_edges if not isn2)
+            for e, is_none in none_edges)
         if not isinstance(v, ast.Call):
             # a reply object is built for the request it answers: one kept on the application / module and handed out again cannot be
             # sent twice by the frameworks (aiohttp: a Response is bound to the request that first sent it) and would carry state over
@@ -354,6 +448,11 @@ def integration_facts(prog: Program, fw: str, ci: ClassInfo) -> Tuple[Dict[str, 
             body = v.args[0] if v.args else next((kws[k] for k in bkw if k in kws), None)
             body_ok = body is not None and dotted(body) == tvar
             st = next((kws[k] for k in skw if k in kws), None)
+            if isinstance(st, ast.Name):
+                # the status computed into a local first (`http_status = self._status_by_error(error_codes)`)
+                st_alts = fl_.alts(n, st)
+                if len(st_alts) == 1:
+                    st = st_alts[0].expr
             alien = sorted(set(kws) - set(bkw) - set(skw) - set(ckw) - {'headers'})
             if alien and 'json_response' not in norm(v.func):
                 problems.append(('RELAY', f'reply built with the keyword `{alien[0]}`', n.line,
